@@ -433,10 +433,21 @@ func scalarReflectFromGo(schema *schema_j5pb.Field, value interface{}) (protoref
 	}
 }
 
+// maxDecimalExponent bounds the power of ten accepted, beyond the length of
+// the input, when decoding a decimal written in scientific notation.
+const maxDecimalExponent = 1000
+
 func decimalFromString(val string) (protoreflect.Value, error) {
 	d, err := decimal.NewFromString(val)
 	if err != nil {
 		return protoreflect.Value{}, err
+	}
+	// the value is stored in plain notation: an exponent of 10^9 in a 12 byte
+	// input would expand to gigabytes of digits. Plain notation never has an
+	// exponent beyond its own length.
+	limit := int32(len(val)) + maxDecimalExponent
+	if exp := d.Exponent(); exp > limit || exp < -limit {
+		return protoreflect.Value{}, fmt.Errorf("decimal exponent %d is out of range", exp)
 	}
 	msg := decimal_j5t.FromShop(d)
 	return protoreflect.ValueOfMessage(msg.ProtoReflect()), nil
